@@ -259,13 +259,25 @@ def write_evidence(pid, tier, seed, level, coverage, assumptions, wall_s, violat
 
 
 def load_findings():
-    path = os.path.join(VERIF, "known_findings.jsonl")
+    """known_findings.txt, committed, never written at run time. Line formats:
+         fixed: property=<id> <commit> <what failed>
+         known: property=<id> id=<slug> <what fails>   ## <json signature used by the check to match it>
+    """
+    path = os.path.join(VERIF, "known_findings.txt")
     out = []
     if os.path.exists(path):
         for l in open(path):
             l = l.strip()
-            if l and not l.startswith("#"):
-                out.append(json.loads(l))
+            if not l or l.startswith("#"):
+                continue
+            m = re.match(r"fixed: property=(\S+) (\S+) (.*)$", l)
+            if m:
+                out.append({"status": "fixed", "property": m.group(1), "commit": m.group(2), "what": m.group(3)})
+                continue
+            m = re.match(r"known: property=(\S+) id=(\S+) (.*?)(?:\s+## (\{.*\}))?$", l)
+            if m:
+                out.append({"status": "known", "property": m.group(1), "id": m.group(2), "what": m.group(3),
+                            "sig": json.loads(m.group(4)) if m.group(4) else {}})
     return out
 
 
